@@ -115,6 +115,10 @@ pub struct Model {
 pub fn owners(clause: &str) -> &'static [&'static str] {
     match clause {
         "must-hit" | "stored-expiry-short" => &["C01", "C05"],
+        "expired-visible-cond" => &["C05", "C06"],
+        "expired-visible-counter" => &["C05", "C07"],
+        "flush-deadline-cond" => &["C08", "C06"],
+        "flush-deadline-counter" => &["C08", "C07"],
         "value-exact" | "flags-exact" | "cas-nonzero" => &["C01"],
         "cas-reported" => &["C01", "C02"],
         "other-key-changed" => &["C01", "C08"],
